@@ -5,9 +5,11 @@ Model of the tree side of sknetwork/hierarchy (property C07):
                            a list of sub-trees is `node ts`
 * `getIndex`             : `postprocess.get_index`
 * `getDendrogram`        : `postprocess.get_dendrogram` (tree → rows `[i, j, -depth, size]` with the `size` dict and
-                           the running `index`).  The code repeatedly looks for the first child that is still a list of
-                           more than one element, converts it in place (it becomes `[root]`) and starts again; the model
-                           converts the children from left to right and then merges them all.
+                           the running `index`).  The (repaired, F25) code converts in a loop, from left to right, the
+                           children that are still lists of more than one element (each becomes `[root]`) and then
+                           merges them all — as the model does. (The pinned code called itself once per such child:
+                           RecursionError from about 1 000 children on. Python's recursion limit is otherwise outside
+                           the model: the depth of the recursion is now the depth of the tree.)
 * `shiftHeights`         : `dendrogram[:, 2] += 1 - min(dendrogram[:, 2])`
 * `recursiveLouvain`     : `LouvainIteration._recursive_louvain` — Louvain is a parameter (`oracle nodes` = the labels it
                            returned for the sub-graph on `nodes`)
